@@ -47,23 +47,50 @@ def canon_value(v):
     return v
 
 
+EMPTY_SIG = {"input": [], "output": [], "runtime_reqs": []}
+# keys the published schema does not require, with the value their absence stands for
 DEFAULTS = {
     "DataflowBlock": {"extension_delta": [], "inputs": [], "other_outputs": []},
     "TailLoop": {"extension_delta": [], "just_inputs": [], "just_outputs": [], "rest": []},
     "Conditional": {"extension_delta": [], "other_inputs": [], "outputs": [], "sum_rows": []},
-    "Extension": {"description": "", "args": []},
+    "Extension": {"description": "", "args": [], "signature": EMPTY_SIG},
     "Input": {"types": []}, "Output": {"types": []},
+    "DFG": {"signature": EMPTY_SIG}, "CFG": {"signature": EMPTY_SIG}, "Case": {"signature": EMPTY_SIG},
+    "CallIndirect": {"signature": EMPTY_SIG},
 }
+
+
+def optional_keys_from_schema():
+    """{op: [keys]} that the published strict schema lets a writer omit (not in `required`, not the tag)"""
+    from vf import env
+
+    defs = json.loads((env.REPO / "specification" / "schema" / "hugr_schema_strict_live.json").read_text())["$defs"]
+    out = {}
+    for df in defs.values():
+        op = df.get("properties", {}).get("op", {}).get("const")
+        if op:
+            out[op] = sorted(k for k in df["properties"] if k not in df.get("required", []) and k != "op")
+    return out
+
+
+def fill_defaults(n):
+    n = dict(n)
+    for k, dv in DEFAULTS.get(n["op"], {}).items():
+        n.setdefault(k, copy_json(dv))
+    return n
+
+
+def copy_json(x):
+    return json.loads(json.dumps(x))
 
 
 def canon_doc(doc):
     from vf.oracles import wire
 
     nodes = []
-    for n in doc["nodes"]:
+    filled = [fill_defaults(n) for n in doc["nodes"]]
+    for n in filled:
         n = dict(n)
-        for k, dv in DEFAULTS.get(n["op"], {}).items():
-            n.setdefault(k, dv)
         if n["op"] in ("DFG", "CFG", "CallIndirect", "Case", "Extension") and "signature" in n:
             n["signature"] = {"t": "G", **n["signature"]}
         if n["op"] in ("Call", "LoadFunction"):
@@ -72,7 +99,7 @@ def canon_doc(doc):
         if "extension_delta" in c:
             c["extension_delta"] = sorted(set(c["extension_delta"]))
         nodes.append(c)
-    ports = [wire.op_ports(n) for n in doc["nodes"]]
+    ports = [wire.op_ports(n) for n in filled]
     edges = Counter()
     for (s, so), (t, to) in doc["edges"]:
         if so is None:
@@ -111,24 +138,39 @@ def respell(x, r):
     return dict(items)
 
 
+OPTIONAL: dict = {}
+OMITTED: dict = {}
+
+
 def foreign_doc(h, r):
     """re-emit a real Hugr the way hugr-core does; returns (doc, number of null-offset edges)"""
     from vf.oracles import wire
     from vf.oracles.observe import enc_op
 
+    if not OPTIONAL:
+        OPTIONAL.update(optional_keys_from_schema())
+        unknown = {op: [k for k in ks if k not in DEFAULTS.get(op, {})] for op, ks in OPTIONAL.items()}
+        unknown = {op: ks for op, ks in unknown.items() if ks}
+        assert not unknown, f"published schema lets a writer omit keys the canonicaliser has no default for: {unknown}"
     order = [n.idx for n in h]
     ren = {old: new for new, old in enumerate(order)}
     nodes = []
     for n in h:
         d = h[n]
         j = {"parent": ren[d.parent.idx] if d.parent is not None else ren[n.idx], **enc_op(d.op)}
-        if j["op"] in ("DataflowBlock", "TailLoop") and j.get("extension_delta") == [] and r.random() < 0.5:
-            del j["extension_delta"]
-        if j["op"] == "Extension":
-            if j.get("description") == "" and r.random() < 0.5:
-                del j["description"]
-            if j.get("args") == [] and r.random() < 0.5:
-                del j["args"]
+        # a foreign writer may leave out every key the published schema does not require when it holds the
+        # value its absence stands for
+        for k in OPTIONAL.get(j["op"], []):
+            dv = DEFAULTS.get(j["op"], {}).get(k)
+            if k in j and dv is not None and r.random() < 0.5:
+                cur = j[k]
+                if k == "signature":
+                    same = cur.get("input") == [] and cur.get("output") == [] and cur.get("runtime_reqs", []) == []
+                else:
+                    same = cur == dv
+                if same:
+                    del j[k]
+                    OMITTED[f"{j['op']}.{k}"] = OMITTED.get(f"{j['op']}.{k}", 0) + 1
         j = respell(j, r)
         nodes.append(j)
     ports = [wire.op_ports({"parent": 0, **enc_op(h[n].op)}) for n in h]
@@ -200,6 +242,8 @@ def check_case(ctx, case, stratum="foreign"):
     if nulls:
         ctx.feat("feature:null-offset-edge")
     check_doc(ctx, doc, case, stratum)
+    for k in list(OMITTED):
+        ctx.count("omitted-default:" + k, OMITTED.pop(k))
     return nulls > 0
 
 
